@@ -53,6 +53,10 @@ func (si *SearchIndex) Search(targetKey []byte, readKey func(offset int64) ([]by
 	if !isExact {
 		foundIndex--
 	}
+	// The key sorts before the first entry so it can't be in the table.
+	if foundIndex < 0 {
+		return 0, 0, nil
+	}
 
 	// Use a scan from this point to look for the key
 	startOffset := int64(si.offsets[foundIndex])
